@@ -26,11 +26,25 @@ RULE = ("cases = ordered pairs (a, b) of names compared in both modes (sorting /
 TRUSTED = ["CPython `re`, `int()` and `str` comparison on ASCII input (exercised, not verified)",
            "Python's list.sort with a comparator that is a total preorder on the list returns a stably sorted list (used for 'latest')"]
 ASSUMPTIONS = ["names and expressions are ASCII; names are over [A-Za-z0-9._+-] (no blanks, no newline)",
+               "blanks in expressions are space, \\t, \\n, \\v, \\f, \\r (Python's \\s also matches the control characters 0x1c-0x1f, which are not generated)",
                "a name that makes _splitVersion raise AttributeError (it starts with '-' or '+') is a name the comparator does not accept",
                "components have fewer than 4300 digits (CPython's int/str conversion limit)",
                "VersionCompare.stdCompare is entered with suffix=True only (compare/__call__ and its own recursive calls)"]
 
-WORKERS = 6
+MIRRORS = [("python/eups/VersionCompare.py", "*"), ("python/eups/hooks.py", "*"),
+           ("python/eups/Eups.py", "Eups.version_match"), ("python/eups/Eups.py", "Eups.version_match_prim"),
+           ("python/eups/Eups.py", "Eups.isLegalRelativeVersion"),
+           ("python/eups/Eups.py", "Eups._findLatestProduct"), ("python/eups/Eups.py", "Eups._selectPreferredProduct"),
+           ("python/eups/Eups.py", "Eups._findProductsByExpr"), ("python/eups/Eups.py", "Eups._findPreferredProductByExpr"),
+           ("python/eups/Eups.py", "Eups.findTaggedProduct"), ("python/eups/Eups.py", "Eups._findTaggedProduct"),
+           ("python/eups/distrib/Repositories.py", "Repositories.findPackage"), ("python/eups/distrib/Repository.py", "Repository.findPackage"),
+           ("python/eups/distrib/Repository.py", "Repository.listPackages"), ("python/eups/distrib/Repository.py", "Repository._getPackageLookup"),
+           ("python/eups/app.py", "listCache"), ("python/eups/app.py", "printProducts"),
+           ("python/eups/Eups.py", "Eups.findProducts"), ("python/eups/Eups.py", "_TagSet"), ("python/eups/utils.py", "uniq"),
+           ("python/eups/db/Database.py", "_Database.findProducts"), ("python/eups/db/Database.py", "_cmp_by_verflav"),
+           ("python/eups/stack/ProductStack.py", "ProductStack.getVersions"), ("python/eups/stack/ProductFamily.py", "ProductFamily.getVersions")]
+
+WORKERS = 4
 MODEL_FLAGS = {"pinned": True} if os.environ.get("C10_MODEL") == "pinned" else {}     # development aid, see docs/notes/g10.md
 
 
@@ -108,6 +122,16 @@ def impl_match(case):
         res = "E:" + type(ex).__name__
     terms = [impl_cmp(v, tv, True) for _, tv in case["terms"]]
     return {"r": res, "terms": terms}
+
+
+def impl_legal(case):
+    """Eups.isLegalRelativeVersion: is the version argument a relational request?"""
+    e = bare_eups()
+    try:
+        r = e.isLegalRelativeVersion(case["expr"])
+    except Exception as ex:  # noqa
+        return {"r": "bad" if type(ex).__name__ == "EupsException" else "E:" + type(ex).__name__}
+    return {"r": "relational" if r is True else "plain" if r is False else "E:%r" % (r,)}
 
 
 _E = None
@@ -234,8 +258,6 @@ def impl_stack(case):
     res = {}
     try:
         for path in PATHS:
-            if path == "cache" and case.get("ties"):
-                continue          # the cache enumerates a stack's versions in dictionary order: not modelled for ties inside a stack
             q = common.in_child(_stack_query, case, root, stacks, path)
             if q[0] != "ok":
                 raise common.InfraError("querying the stacks (%s) failed: %r" % (path, q,))
@@ -245,13 +267,335 @@ def impl_stack(case):
     return res
 
 
+LIST_TAGS = ("current", "beta")     # global tags of the scratch stacks (common.mkstacks); "latest" is the pseudo-tag
+
+
+def _list_build(case):
+    root = common.scratch("c10l")
+    stacks, _ = common.mkstacks(root, nstacks=len(case["stacks"]))
+    e = common.new_eups()
+    with contextlib.redirect_stderr(io.StringIO()), contextlib.redirect_stdout(io.StringIO()):
+        first = None
+        for si, decls in enumerate(case["stacks"]):
+            for d in decls:
+                pd = common.mkprod(stacks[si], "prod", d["ver"])
+                e.declare("prod", d["ver"], pd, eupsPathDir=stacks[si])
+                if first is None:
+                    first = (si, d["ver"])
+        if first is not None:
+            # the very first declaration of a product is made `current` by declare(); the case says who carries which tag
+            e.unassignTag("current", "prod", first[1], eupsPathDir=stacks[first[0]])
+        for si, decls in enumerate(case["stacks"]):
+            for d in decls:
+                for t in d["tags"]:
+                    e.assignTag(t, "prod", d["ver"], eupsPathDir=stacks[si])
+    return root, stacks
+
+
+def _list_query(case, root, stacks):
+    """Eups.findProducts(name, version, tags) — what `eups list prod <version> -t <tag>` prints — in a fresh process."""
+    os.environ["EUPS_PATH"] = ":".join(stacks)
+    os.environ["EUPS_USERDATA"] = os.path.join(root, "userdataA")
+    from eups import utils
+    utils.stdwarn = io.StringIO()
+    e = common.new_eups()
+    # the stacks are what the case says (otherwise nothing below means anything)
+    for si, decls in enumerate(case["stacks"]):
+        for d in decls:
+            p = e.findProduct("prod", d["ver"], eupsPathDirs=[stacks[si]])
+            if p is None or sorted(t for t in p.tags if t in LIST_TAGS) != sorted(d["tags"]):
+                raise common.InfraError("stack %d: %r should carry %r, has %r" % (si, d["ver"], d["tags"], p and p.tags))
+    try:
+        with contextlib.redirect_stderr(io.StringIO()), contextlib.redirect_stdout(io.StringIO()):
+            ps = e.findProducts("prod", version=(case["version"] or None), tags=(list(case["tags"]) or None))
+        res = [[stacks.index(p.stackRoot()), p.version] for p in ps]
+    except IndexError:
+        res = {"err": "IndexError"}
+    except AttributeError:
+        res = {"err": "Malformed"}
+    except Exception as ex:  # noqa
+        res = {"err": "BadExpr" if type(ex).__name__ == "EupsException" else "E:" + type(ex).__name__}
+    def ref(p):
+        return None if p is None else [stacks.index(p.stackRoot()), p.version]
+
+    def guarded(f):
+        try:
+            with contextlib.redirect_stderr(io.StringIO()), contextlib.redirect_stdout(io.StringIO()):
+                return f()
+        except IndexError:
+            return {"err": "IndexError"}
+        except AttributeError:
+            return {"err": "Malformed"}
+        except Exception as ex:  # noqa
+            return {"err": "BadExpr" if type(ex).__name__ == "EupsException" else "E:" + type(ex).__name__}
+
+    def cli():
+        # `eups list prod [version] [-t tag …]` as the command prints it: one line per product, version and tags
+        import eups.app as app
+        buf = io.StringIO()
+        with contextlib.redirect_stdout(buf), contextlib.redirect_stderr(io.StringIO()):
+            app.printProducts(buf, "prod", case["version"] or None, eupsenv=e, tags=(list(case["tags"]) or None))
+        # a tag carried in several stacks is printed as tag[stack]
+        return [[ln.split()[0], sorted(t.split("[")[0] for t in ln.split()[1:] if t.split("[")[0] in LIST_TAGS)]
+                for ln in buf.getvalue().splitlines() if ln.strip()]
+
+    try:
+        printed = cli()
+    except IndexError:
+        printed = {"err": "IndexError"}
+    except AttributeError:
+        printed = {"err": "Malformed"}
+    except Exception as ex:  # noqa
+        printed = {"err": {"EupsException": "BadExpr", "ProductNotFound": "ProductNotFound"}.get(type(ex).__name__, "E:" + type(ex).__name__)}
+    def list_cache():
+        # `eups admin listCache -v`: one line per product and stack, its versions sorted with the comparator
+        import eups.app as app
+        buf = io.StringIO()
+        with contextlib.redirect_stdout(buf), contextlib.redirect_stderr(io.StringIO()):
+            app.listCache(path=list(stacks), verbose=1, flavor=e.flavor)
+        return [ln.split()[1:] for ln in buf.getvalue().splitlines() if ln.split()[:1] == ["prod"]]
+    try:
+        cache_lines = list_cache()
+    except AttributeError:
+        cache_lines = {"err": "Malformed"}
+    except Exception as ex:  # noqa
+        cache_lines = {"err": "E:" + type(ex).__name__}
+    arg = case["version"]
+    find = entry = None
+    if arg:
+        # the other entry points that take a version argument: findProduct(name, arg) (a relational argument goes to
+        # _findPreferredProductByExpr and the session's preferred tags) and the way `setup prod arg` resolves it
+        if case["argkind"] == "expr":
+            find = guarded(lambda: ref(e.findProduct("prod", arg)))
+
+        def vro():
+            p, why = e.findProductFromVRO("prod", version=arg, vro=["version", "versionExpr"])
+            # which VRO entry found it: the expression, or the explicit version (reported as "version" or "commandLine")
+            return [ref(p), None if not why else "versionExpr" if why[0] == "versionExpr" else "explicit"]
+        entry = guarded(vro)
+    allv = list(dict.fromkeys(d["ver"] for st in case["stacks"] for d in st))
+    return {"products": res, "cli": printed, "list_cache": cache_lines, "find": find, "entry": entry, "preferred": list(e.preferredTags),
+            "terms": {v: [impl_cmp(v, tv, True) for _, tv in case["terms"]] for v in allv},
+            "order": {v: "".join(impl_cmp(w, v, False) for w in allv) for v in allv}}
+
+
+def impl_list(case):
+    r = common.in_child(_list_build, case)
+    if r[0] != "ok":
+        raise common.InfraError("building the stacks of a listing case failed: %r" % (r,))
+    root, stacks = r[1]
+    try:
+        q = common.in_child(_list_query, case, root, stacks)
+        if q[0] != "ok":
+            raise common.InfraError("listing failed: %r" % (q,))
+        return q[1]
+    finally:
+        common.rmtree(root)
+
+
+def _repos_query(case):
+    """distrib.Repositories.findPackage(product, Tag("latest")) over package repositories given as directories of manifests"""
+    root = common.scratch("c10r")
+    try:
+        common.mkstacks(root, nstacks=1)
+        e = common.new_eups()
+        roots = []
+        for i, vers in enumerate(case["repos"]):
+            r = os.path.join(root, "srv%d" % i)
+            os.makedirs(os.path.join(r, "manifests"))
+            for v in vers:
+                with open(os.path.join(r, "manifests", "prod-%s.manifest" % v), "w") as fh:
+                    fh.write("EUPS distribution manifest for prod (%s). Version 1.0\n#\n" % v)
+            roots.append(r)
+        from eups.distrib.Repositories import Repositories
+
+        def ref(out):
+            return None if out is None else [roots.index(out[3]), out[1]]
+
+        def guarded(f):
+            try:
+                with contextlib.redirect_stderr(io.StringIO()), contextlib.redirect_stdout(io.StringIO()):
+                    return f()
+            except AttributeError:
+                return {"err": "Malformed"}
+            except Exception as ex:  # noqa
+                return {"err": "E:" + type(ex).__name__}
+        reps = Repositories(roots, eupsenv=e, verbosity=-1, log=io.StringIO())
+        tag = e.tags.getTag("latest")
+        per = []
+        for r in roots:
+            o = guarded(lambda: reps.repos[r].findPackage("prod", tag))
+            per.append(o if isinstance(o, dict) else (None if o is None else o[1]))
+        allv = [v for vers in case["repos"] for v in vers]
+        from eups.utils import Flavor
+        res = {"passes": len(Flavor().getFallbackFlavors(e.flavor, True)),      # the loop over the repositories runs once per preferred flavor
+               "latest": guarded(lambda: ref(reps.findPackage("prod", tag))),
+               "default": guarded(lambda: ref(reps.findPackage("prod"))),       # no version: the preferred tags, of which only `latest` finds anything here
+               "per_repo": per}
+        refs = set(x[1] for x in (res["latest"], res["default"]) if isinstance(x, list)) | set(x for x in per if isinstance(x, str))
+        res["cmp_to"] = {r: "".join(impl_cmp(v, r, False) for v in allv) for r in refs}
+        return res
+    finally:
+        common.rmtree(root)
+
+
+def impl_repos(case):
+    q = common.in_child(_repos_query, case)
+    if q[0] != "ok":
+        raise common.InfraError("querying the package repositories failed: %r" % (q,))
+    return q[1]
+
+
+def eval_repos(ctx, c, inp, io_, ans):
+    repos = c["repos"]
+    allv = [v for vers in repos for v in vers]
+    ctx.case(key=("R", json.dumps(repos)), nontrivial=len(set(allv)) > 1,
+             sample={"input": inp, "impl": {k: io_[k] for k in ("latest", "default", "per_repo")}} if ctx.evaluations % 97 == 5 else None)
+    ctx.hist("repos/n=%d" % len(repos))
+    mo = ans["r"]
+    per_latest = [x for x in io_["per_repo"] if isinstance(x, str)]
+    if len(per_latest) >= 2 and io_["cmp_to"].get(per_latest[0]):
+        # is the first repository's latest the overall maximum?  (the class on which a wrong comparison shows)
+        col = io_["cmp_to"][per_latest[0]]
+        ctx.hist("repos/first-repository-has-the-latest" if all(ch in "<=" for ch in col) else "repos/a-later-repository-has-the-latest")
+    for api in ("latest", "default"):
+        got = io_[api]
+        if got != mo:
+            ctx.disagree("latest_across_repositories/" + api, inp, {k: io_[k] for k in ("latest", "default", "per_repo")}, mo)
+        # oracle (ii): declared there, and no available version is later (the implementation's own comparisons)
+        if isinstance(got, dict):
+            ctx.fail("latest_no_crash", inp, got, mo, note="%s raised %s" % (api, got["err"]))
+        elif (got is None) != (not allv):
+            ctx.fail("latest_exists", inp, got, mo, note="%s = %r for available versions %r" % (api, got, allv[:6]))
+        elif got is not None:
+            if got[1] not in repos[got[0]]:
+                ctx.fail("latest_is_max", inp, got, mo, note="[repositories] %r is not in repository %d" % (got[1], got[0]))
+            else:
+                bad = [allv[i] for i, ch in enumerate(io_["cmp_to"][got[1]]) if ch not in "<="]
+                if bad:
+                    ctx.fail("latest_is_max", inp, got, mo, finding=None,
+                             note="[repositories, %s] %r returned but %r are later" % (api, got[1], bad[:3]))
+    for i, x in enumerate(io_["per_repo"]):
+        if isinstance(x, str):
+            bad = [v for v in repos[i] if io_["cmp_to"][x][allv.index(v)] not in "<="]
+            if bad:
+                ctx.fail("latest_is_max", inp, io_["per_repo"], mo, note="[repository %d] %r returned but %r are later" % (i, x, bad[:3]))
+
+
+def gen_repos(ctx, pool, n):
+    rng = ctx.rng
+    bypre = {}
+    for nme, d in pool:
+        bypre.setdefault(d["prefix"], []).append((nme, d))
+    groups = [g for g in bypre.values() if len(g) >= 12]
+    cases = []
+    for _ in range(n):
+        grp = rng.choice(groups)
+        base = rng.sample(grp, min(len(grp), 9))
+        d0 = dict(rng.choice(base)[1])
+        for nums in (["9"], ["10"], ["1", "9"], ["1", "10"]):
+            if rng.random() < 0.4:
+                e = dict(d0, nums=nums, seps=[rng.choice("._")] * (len(nums) - 1), pre=None, post=None)
+                base.append((L.render(e), e))
+        repos = []
+        for _s in range(rng.choice([1, 2, 2, 3, 3, 4])):
+            st, keys = [], set()
+            for nme, d in rng.sample(base, min(len(base), rng.choice([0, 1, 1, 2, 3]))):
+                k = spelling_key(d)
+                if k not in keys:                      # no two versions of a repository compare equal (directory order is not modelled)
+                    keys.add(k)
+                    st.append(nme)
+            repos.append(st)
+        cases.append({"kind": "repos", "repos": repos})
+    return cases
+
+
+def _list_queries(cases, root, stacks):
+    """several requests against the same stacks, one after the other in one process (the stacks are only read)"""
+    return [_list_query(c, root, stacks) for c in cases]
+
+
+def impl_list_family(job):
+    """job = (stacks description, [listing cases on it]): one child declares and tags, one child answers all the requests"""
+    config, cases = job
+    r = common.in_child(_list_build, config)
+    if r[0] != "ok":
+        raise common.InfraError("building the stacks of a listing family failed: %r" % (r,))
+    root, stacks = r[1]
+    try:
+        q = common.in_child(_list_queries, cases, root, stacks)
+        if q[0] != "ok":
+            raise common.InfraError("listing failed: %r" % (q,))
+        return q[1]
+    finally:
+        common.rmtree(root)
+
+
+def impl_list_families(jobs):
+    return [impl_list_family(j) for j in jobs]
+
+
+def enum_list_families(ctx, n):
+    """Exhaustive small enumeration for the listing: one stack with 1.9, 1.10, 1_10 (two spellings that compare equal) in every order of
+    declaration x `current` on one of them or on none x `beta` likewise, and against each every request of a fixed set
+    (6 version arguments x 5 tag lists).  n = number of stack configurations (None: all 96)."""
+    import itertools
+    vers = ["1.9", "1.10", "1_10"]
+    configs = []
+    for order in itertools.permutations(vers):
+        for cur in [None] + vers:
+            for beta in [None] + vers:
+                configs.append({"stacks": [[{"ver": v, "tags": [t for t, w in (("current", cur), ("beta", beta)) if w == v]} for v in order]]})
+    if n is not None and n < len(configs):
+        configs = ctx.rng.sample(configs, n)
+    args = [(">= 1.10", "expr", [[">=", "1.10"]]), ("< 1.10", "expr", [["<", "1.10"]]), ("== 1_10", "expr", [["==", "1_10"]]),
+            ("> 1.9 || == 1.9", "expr", [[">", "1.9"], ["==", "1.9"]]), ("1.1*", "glob", []), ("", "none", [])]
+    tagsets = [[], ["current"], ["latest"], ["beta", "current"], ["latest", "current"]]
+    jobs = []
+    for cf in configs:
+        cases = [{"kind": "list", "stacks": cf["stacks"], "version": a, "argkind": k, "terms": t, "pure": True, "tags": ts, "family": True}
+                 for a, k, t in args for ts in tagsets]
+        jobs.append((cf, cases))
+    return jobs
+
+
+def eval_list_families(ctx, jobs):
+    if not jobs:
+        return
+    nw = min(WORKERS, len(jobs))
+    chunks = [jobs[i::nw] for i in range(nw)]
+    outs = parallel_map(impl_list_families, chunks, workers=nw) if nw > 1 else [impl_list_families(jobs)]
+    impl = {}
+    for k, ch in enumerate(outs):
+        for j, v in enumerate(ch):
+            impl[k + j * nw] = v
+    cases, ios = [], []
+    for idx, (cf, cs) in enumerate(jobs):
+        cases += cs
+        ios += impl[idx]
+    reqs = [{"m": "c10", "op": "list", "version": c["version"], "tags": c["tags"], "stacks": c["stacks"], "preferred": io_["preferred"]}
+            for c, io_ in zip(cases, ios)]
+    answers = ctx.lean.ask_many(reqs)
+    for c, io_, ans in zip(cases, ios, answers):
+        if "bad-op" in ans:
+            raise common.InfraError("model refused %r: %s" % (c, ans["bad-op"]))
+        ctx.hist("list/enumerated-family")
+        eval_list(ctx, c, {k: v for k, v in c.items() if not k.startswith("_")}, io_, ans)
+
+
 def impl_small(jobs):
     out = []
     for c in jobs:
         if c["kind"] == "stack":
             out.append(impl_stack(c))
             continue
-        out.append(impl_match(c) if c["kind"] == "match" else impl_latest(c))
+        if c["kind"] == "list":
+            out.append(impl_list(c))
+            continue
+        if c["kind"] == "repos":
+            out.append(impl_repos(c))
+            continue
+        out.append(impl_match(c) if c["kind"] == "match" else impl_legal(c) if c["kind"] == "legal" else impl_latest(c))
     if _E is not None:
         common.rmtree(_E._c10root)
     return out
@@ -449,11 +793,18 @@ def eval_small(ctx, cases):
     """match and latest cases"""
     if not cases:
         return
-    impl = impl_small_forked(cases, WORKERS if (len(cases) > 200 or cases[0]["kind"] == "stack") else 1)
+    impl = impl_small_forked(cases, WORKERS if (len(cases) > 200 or cases[0]["kind"] in ("stack", "list", "repos")) else 1)
     reqs = []
     for c in cases:
         if c["kind"] == "match":
             reqs.append({"m": "c10", "op": "match", "v": c["v"], "expr": c["expr"]})
+        elif c["kind"] == "legal":
+            reqs.append({"m": "c10", "op": "legal", "expr": c["expr"]})
+        elif c["kind"] == "repos":
+            reqs.append(dict({"m": "c10", "op": "repos", "repos": c["repos"], "passes": impl[len(reqs)]["passes"]}, **MODEL_FLAGS))
+        elif c["kind"] == "list":
+            reqs.append({"m": "c10", "op": "list", "version": c["version"], "tags": c["tags"], "stacks": c["stacks"],
+                         "preferred": impl[len(reqs)]["preferred"]})     # the session's preferred tags are part of the input
         elif c["kind"] == "stack":
             reqs.append({"m": "c10", "op": "stacksboth", "stacks": c["stacks"], "expr": c["expr"], "minver": c.get("minver") or ""})
         else:
@@ -465,13 +816,40 @@ def eval_small(ctx, cases):
         inp = {k: v for k, v in c.items() if not k.startswith("_")}
         if c["kind"] == "stack":
             eval_stack(ctx, c, inp, io_, ans)
+        elif c["kind"] == "repos":
+            eval_repos(ctx, c, inp, io_, ans)
+        elif c["kind"] == "list":
+            eval_list(ctx, c, inp, io_, ans)
+        elif c["kind"] == "legal":
+            ctx.case(key=("g", c["expr"]), nontrivial=bool(c["expr"].strip()),
+                     sample={"input": inp, "impl": io_} if ctx.evaluations % 997 == 11 else None)
+            ctx.hist("legal/shape=%s" % c.get("shape", "corpus"))
+            ctx.hist("legal/outcome=" + io_["r"])
+            if io_["r"] != ans["r"]:
+                ctx.disagree("isLegalRelativeVersion", inp, io_["r"], ans["r"])
+            # oracle (ii), from the generator's description: a request with an explicit operator is a relational request,
+            # a bare name is not, and the single `=` followed by a blank is refused with the "did you mean ==" message
+            want = c.get("want")
+            if want is not None and io_["r"] != want:
+                ctx.fail("request_recognised", inp, io_["r"], ans["r"], note="expected %s for the shape %s" % (want, c.get("shape")))
         elif c["kind"] == "match":
             mo = ans["r"]
             ctx.case(key=("m", c["v"], c["expr"]), nontrivial=bool(c["terms"]),
                      sample={"input": inp, "impl": io_} if ctx.evaluations % 9973 == 5 else None)
             ctx.hist("match/outcome=" + io_["r"])
             ctx.hist("match/terms=%d" % len(c["terms"]))
-            ctx.hist("match/pure-or-chain" if c.get("pure") else "match/other")
+            ctx.hist("match/pure-or-chain" if c.get("pure") else "match/enumerated-token-sequence" if c.get("enum") else "match/other")
+            ex_ = c["expr"]
+            for key, hit in (("match/text:word-or", " or " in ex_), ("match/text:and", "&&" in ex_ or " and " in ex_),
+                             ("match/text:no-blank-after-operator", bool(L.re.search(r"[<>=][^\s<>=]", ex_))),
+                             ("match/text:no-blank-around-||", bool(L.re.search(r"\S\|\||\|\|\S", ex_))),
+                             ("match/text:bare-term", any(("%s %s" % (o, v)) not in L.re.sub(r"\s+", " ", L.re.sub(r"([<>=]+)\s*", r"\1 ", ex_))
+                                                          for o, v in c["terms"] if o == "==")),
+                             ("match/text:tab-or-double-blank", "\t" in ex_ or "  " in ex_),
+                             ("match/text:and-after-or", bool(L.re.search(r"(\|\|| or ).*(&&| and )", ex_))),
+                             ("match/text:or-after-and", bool(L.re.search(r"(&&| and ).*(\|\|| or )", ex_)))):
+                if hit:
+                    ctx.hist(key)
             if io_["r"] != mo:
                 ctx.disagree("version_match", inp, io_["r"], mo, note="tokens (model): %s" % ans.get("tokens"))
             ex = expected_match(c, io_)
@@ -513,6 +891,16 @@ def eval_small(ctx, cases):
                 ctx.fail("latest_no_crash", inp, io_cmp, mo, note="selection raised on conventional names")
 
 
+def eval_chunks(ctx, cases, size):
+    """eval_small in pieces, so that the time limit is looked at in between (the search after a correspondence break
+    runs under the quick tier's limit with a larger budget)"""
+    for i in range(0, len(cases), size):
+        if ctx.out_of_time():
+            ctx.note("time limit reached after %d of %d %s cases" % (i, len(cases), cases[i]["kind"]))
+            break
+        eval_small(ctx, cases[i:i + size])
+
+
 def canon_stack_model(ans):
     return {"latest": ans["latest"], "latest_min": ans["latest_min"], "preferred": ans["preferred"],
             "matches": sorted(ans["matches"]) if isinstance(ans["matches"], list) else ans["matches"]}
@@ -524,6 +912,8 @@ def eval_stack(ctx, c, inp, io_, ans):
              sample={"input": inp, "impl": {k: {x: v[x] for x in ("branch", "latest", "latest_min", "matches", "preferred")}
                                             for k, v in io_.items()}} if ctx.evaluations % 997 == 3 else None)
     ctx.hist("stack/nstacks=%d" % len(c["stacks"]))
+    if c.get("ties"):
+        ctx.hist("stack/ties-inside-a-stack")
     if sorted(allv) != sorted(allv, key=lambda v: [int(t) if t.isdigit() else t for t in __import__("re").split(r"(\d+)", v)]):
         ctx.hist("stack/string-order-differs-from-numeric-order")
     for path, out in io_.items():
@@ -605,6 +995,288 @@ def eval_stack(ctx, c, inp, io_, ans):
                     check_max("latest_of_matches_is_max", pr, [i for i in everything if allv[i] in matched], "latest of the matches")
 
 
+def eval_list(ctx, c, inp, io_, ans):
+    """Eups.findProducts(name, version, tags): the listing entry point."""
+    import fnmatch
+    stacks, tags, arg = c["stacks"], c["tags"], c["version"]
+    allv = list(dict.fromkeys(d["ver"] for st in stacks for d in st))
+    ctx.case(key=("L", json.dumps(stacks), arg, tags), nontrivial=len(allv) > 1,
+             sample={"input": inp, "impl": io_["products"]} if ctx.evaluations % 97 == 3 else None)
+    ctx.hist("list/arg=" + c["argkind"])
+    ctx.hist("list/tags=" + ("+".join(tags) or "none"))
+    got = io_["products"]
+    mo = ans["products"] if "products" in ans else {"err": ans["err"]}
+    if got != mo:
+        ctx.disagree("findProducts", inp, got, mo)
+    eval_list_entries(ctx, c, inp, io_, ans)
+    # the command level: what `eups list` prints (sorted by version *string* there) against the model's listing
+    decl_ = {(i, d["ver"]): d["tags"] for i, st in enumerate(stacks) for d in st}
+    if isinstance(mo, dict):
+        mcli = mo
+    elif not mo:
+        mcli = {"err": "ProductNotFound"}
+    else:
+        mcli = sorted([v, sorted(decl_.get((i, v), []))] for i, v in mo)
+    # `eups admin listCache -v`: the whole sorted list of every stack (not only its last element)
+    msorted = [x for x in ans["sorted"] if x != []]
+
+    def canon_ties(lines):
+        # listCache enumerates a stack through a set (`_uniquify`): versions that compare equal come in no particular order
+        if not isinstance(lines, list):
+            return lines
+        allv__ = list(dict.fromkeys(d["ver"] for st in stacks for d in st))
+        out = []
+        for line in lines:
+            if not isinstance(line, list):
+                out.append(line)
+                continue
+            groups = []
+            for v in line:
+                if groups and v in allv__ and groups[-1][-1] in allv__ and io_["order"][v][allv__.index(groups[-1][-1])] == "=":
+                    groups[-1].append(v)
+                else:
+                    groups.append([v])
+            out.append([v for g in groups for v in sorted(g)])
+        return out
+    if canon_ties(io_["list_cache"]) != canon_ties(msorted):
+        ctx.disagree("listCache_version_order", inp, io_["list_cache"], msorted)
+    if isinstance(io_["list_cache"], list):
+        allv_ = list(dict.fromkeys(d["ver"] for st in stacks for d in st))
+        nonempty = [st for st in stacks if st]
+        if len(io_["list_cache"]) != len(nonempty):
+            ctx.fail("sorted_listing_complete", inp, io_["list_cache"], msorted, note="%d lines for %d stacks with the product" % (len(io_["list_cache"]), len(nonempty)))
+        for line, st in zip(io_["list_cache"], nonempty):
+            ctx.hist("list/listCache-line-of-%d" % min(len(st), 4))
+            if sorted(line) != sorted(d["ver"] for d in st):
+                ctx.fail("sorted_listing_complete", inp, io_["list_cache"], msorted, note="the line is not the stack's versions: %r" % (line,))
+            for a, b in zip(line, line[1:]):
+                if a in allv_ and b in allv_ and io_["order"][b][allv_.index(a)] not in "<=":
+                    ctx.fail("sorted_listing_in_version_order", inp, io_["list_cache"], msorted, note="%r is printed before %r" % (a, b))
+                    break
+    ctx.hist("list/cli=" + ("err:" + io_["cli"]["err"] if isinstance(io_["cli"], dict) else "lines"))
+    if io_["cli"] != mcli:
+        ctx.disagree("eups_list_output", inp, io_["cli"], mcli)
+    if isinstance(got, dict):
+        ctx.hist("list/outcome=" + got["err"])
+        if c["argkind"] in ("expr", "none", "glob") and c.get("pure", True):
+            ctx.fail("list_no_crash", inp, got, mo, note="listing raised %s" % got["err"])
+        return
+    ctx.hist("list/outcome=%s" % ("some" if got else "nothing"))
+
+    # ---- oracle (ii): from the case description and the implementation's own comparisons
+    def satisfies(v):
+        if c["argkind"] == "none":
+            return True
+        if c["argkind"] == "glob":
+            return fnmatch.fnmatchcase(v, arg)
+        ex = expected_match(c, {"terms": io_["terms"][v]})
+        return None if ex is None else ex[1] == "match"
+
+    decided = c["argkind"] in ("none", "glob") or (c["argkind"] == "expr" and c.get("pure"))
+    sat = {v: satisfies(v) for v in allv} if decided else {}
+    if decided and any(x is None for x in sat.values()):
+        decided = False
+    decl = {(i, d["ver"]): d["tags"] for i, st in enumerate(stacks) for d in st}
+
+    def is_max_of_stack(i, v):
+        col = io_["order"][v]
+        return all(col[allv.index(d["ver"])] in "<=" for d in stacks[i])
+
+    for i, v in got:
+        if (i, v) not in decl:
+            ctx.fail("list_declared", inp, got, mo, note="%r is not declared in stack %d" % (v, i))
+    if decided:
+        wanted = [t for t in tags if t != "latest"]
+        carried = [(i, v) for (i, v), ts in decl.items() if set(ts) & set(wanted)]
+        if tags and c["argkind"] == "expr":
+            if any(not sat[v] for _, v in carried):
+                ctx.hist("list/tagged-version-fails-expression")
+            if any(sat[v] for _, v in carried):
+                ctx.hist("list/tagged-version-satisfies-expression")
+            if "latest" in tags and any(st and not any(sat[d["ver"]] and is_max_of_stack(i, d["ver"]) for d in st)
+                                        for i, st in enumerate(stacks)):
+                ctx.hist("list/latest-of-a-stack-fails-expression")
+        # THE clause: every product returned satisfies the request
+        for i, v in got:
+            if (i, v) in decl and not sat[v]:
+                ctx.fail("list_satisfies_request", inp, got, mo,
+                         note="%r (stack %d) is listed but %s" % (v, i, "compares %s with the terms" % io_["terms"][v]
+                                                                   if c["argkind"] == "expr" else "does not match the pattern"))
+                break
+        if isinstance(io_["cli"], list):
+            for v, _ts in io_["cli"]:
+                if v in sat and not sat[v]:
+                    ctx.fail("list_satisfies_request", inp, io_["cli"], mo, note="`eups list` prints %r, which does not satisfy the request" % v)
+                    break
+        gotv = [v for _, v in got]
+        if len(set(gotv)) != len(gotv):
+            ctx.fail("list_each_version_once", inp, got, mo, note="a version is listed twice")
+        if not tags:
+            missing = [v for v in allv if sat[v] and v not in gotv]
+            if missing:
+                ctx.fail("list_complete", inp, got, mo, note="%r satisfy the request and are not listed" % missing[:3])
+            # within a stack the versions come in the order of the comparator
+            for (i, a), (j, b) in zip(got, got[1:]):
+                if i == j and io_["order"][b][allv.index(a)] not in "<=":
+                    ctx.fail("list_in_version_order", inp, got, mo, note="%r is listed before %r" % (a, b))
+                    break
+        else:
+            for i, v in got:
+                if (i, v) in decl and not (set(decl[(i, v)]) & set(wanted)) and not ("latest" in tags and is_max_of_stack(i, v)):
+                    ctx.fail("list_carries_a_tag", inp, got, mo, note="%r (stack %d) carries %r, asked for %r" % (v, i, decl[(i, v)], tags))
+                    break
+            missing = [v for (i, v) in carried if sat[v] and v not in gotv]
+            if "latest" in tags:
+                missing += [d["ver"] for i, st in enumerate(stacks) for d in st
+                            if sat[d["ver"]] and is_max_of_stack(i, d["ver"]) and d["ver"] not in gotv
+                            and not any(e_["ver"] != d["ver"] and is_max_of_stack(i, e_["ver"]) for e_ in st)]
+            if missing:
+                ctx.fail("list_tagged_complete", inp, got, mo, note="%r carry a requested tag, satisfy the request and are not listed" % missing[:3])
+
+
+def eval_list_entries(ctx, c, inp, io_, ans):
+    """findProduct(name, arg) and findProductFromVRO(name, version=arg, vro=[version, versionExpr]) on a listing case."""
+    stacks, arg = c["stacks"], c["version"]
+    if not arg:
+        return
+    allv = list(dict.fromkeys(d["ver"] for st in stacks for d in st))
+    decl = {(i, d["ver"]): d["tags"] for i, st in enumerate(stacks) for d in st}
+    pure = c["argkind"] == "expr" and c.get("pure")
+    sat = {}
+    if pure:
+        for v in allv:
+            ex = expected_match(c, {"terms": io_["terms"][v]})
+            sat[v] = None if ex is None else ex[1] == "match"
+        if any(x is None for x in sat.values()):
+            pure = False
+    both = {"find": io_["find"], "entry": io_["entry"]}
+    mboth = {"find": ans["find"], "entry": ans["entry"]}
+
+    def later_than(v, among):
+        col = io_["order"][v]
+        return [w for w in among if col[allv.index(w)] == ">"]
+
+    # ---- findProduct(name, expr)
+    if c["argkind"] == "expr":
+        got = io_["find"]
+        ctx.hist("find/outcome=" + ("err" if isinstance(got, dict) else "none" if got is None else "some"))
+        if got != ans["find"]:
+            ctx.disagree("findProduct(expr)", inp, both, mboth)
+        if pure and not isinstance(got, dict):
+            # a version string counts once, for the first stack (path order) that declares it
+            matching = [(i, v) for (i, v) in decl if sat[v] and not any((j, v) in decl for j in range(i))]
+            if (got is None) != (not matching):
+                ctx.fail("find_by_expr_exists", inp, both, mboth, note="findProduct = %r, matching %r" % (got, matching[:4]))
+            elif got is not None:
+                got = tuple(got)
+                if got not in decl:
+                    ctx.fail("find_by_expr_declared", inp, both, mboth, note="%r is not declared there" % (got,))
+                elif not sat[got[1]]:
+                    ctx.fail("find_by_expr_satisfies_request", inp, both, mboth,
+                             note="%r compares %s with the terms" % (got[1], io_["terms"][got[1]]))
+                else:
+                    pref = [t for t in io_["preferred"] if t in LIST_TAGS or t == "latest"]
+                    first = next((t for t in pref if t == "latest" or any(t in decl[m] for m in matching)), None)
+                    ctx.hist("find/decided-by=%s" % first)
+                    if first == "latest":
+                        bad = later_than(got[1], [v for _, v in matching])
+                        if bad:
+                            ctx.fail("find_by_expr_is_max", inp, both, mboth, note="no matching version carries a preferred tag; %r is later than %r" % (bad[:3], got[1]))
+                    elif first is not None and first not in decl[got]:
+                        ctx.fail("find_by_expr_prefers_tag", inp, both, mboth, note="a matching version carries %r; %r does not" % (first, got))
+    # ---- the way `setup prod arg` resolves its argument
+    got = io_["entry"]
+    kind = "err" if isinstance(got, dict) else ("none" if got[0] is None else str(got[1]))
+    ctx.hist("entry/%s/%s" % (c["argkind"], kind))
+    if got != ans["entry"]:
+        ctx.disagree("findProductFromVRO(version,versionExpr)", inp, both, mboth)
+    if isinstance(got, dict):
+        if c["argkind"] != "bad" and c.get("pure", True):
+            ctx.fail("entry_no_crash", inp, both, mboth, note="raised %s" % got["err"])
+        return
+    if c["argkind"] == "bad":
+        ctx.fail("entry_refuses_single_equals", inp, both, mboth, note="a single = was accepted")
+        return
+    if pure:
+        matching = [v for v in allv if sat[v]]
+        if (got[0] is None) != (not matching):
+            ctx.fail("entry_exists", inp, both, mboth, note="resolved to %r, matching %r" % (got[0], matching[:4]))
+        elif got[0] is not None:
+            r = tuple(got[0])
+            if r not in decl:
+                ctx.fail("entry_declared", inp, both, mboth, note="%r is not declared there" % (r,))
+            elif not sat[r[1]]:
+                ctx.fail("entry_satisfies_request", inp, both, mboth, note="%r compares %s with the terms" % (r[1], io_["terms"][r[1]]))
+            else:
+                bad = later_than(r[1], matching)
+                if bad:
+                    ctx.fail("entry_is_latest_of_matches", inp, both, mboth, note="%r satisfy the request and are later than %r" % (bad[:3], r[1]))
+    elif c["argkind"] == "glob" and not any(ch in arg for ch in "*?[] \t|&"):
+        # a plain version name: exactly that string, from the first stack that declares it
+        where = [i for i, st in enumerate(stacks) if any(d["ver"] == arg for d in st)]
+        want = [[where[0], arg], "explicit"] if where else [None, None]
+        if got != want:
+            ctx.fail("entry_exact_version", inp, both, mboth, note="expected %r" % (want,))
+
+
+def gen_lists(ctx, pool, n):
+    """Listing requests: stacks with tagged versions, a version argument (expression / shell pattern / none / refused), tags."""
+    rng = ctx.rng
+    bypre = {}
+    for nme, d in pool:
+        bypre.setdefault(d["prefix"], []).append((nme, d))
+    groups = [g for g in bypre.values() if len(g) >= 12]
+    odd = ["w9", "foo", "(", "="]
+    cases = []
+    for _ in range(n):
+        grp = rng.choice(groups)
+        base = rng.sample(grp, min(len(grp), 8))
+        d0 = dict(rng.choice(base)[1])
+        for nums in (["9"], ["10"], ["2", "0"], ["1", "9"], ["1", "10"]):
+            if rng.random() < 0.4:
+                e = dict(d0, nums=nums, seps=[rng.choice("._")] * (len(nums) - 1), pre=rng.choice([None, None, "rc2"]), post=None)
+                base.append((L.render(e), e))
+        ties = rng.random() < 0.15
+        stacks = []
+        for _s in range(rng.choice([1, 1, 2, 2, 3])):
+            st, keys = [], set()
+            for nme, d in rng.sample(base, min(len(base), rng.choice([0, 1, 2, 3, 4, 5]))):
+                k = spelling_key(d)
+                if (ties or k not in keys) and nme not in [x["ver"] for x in st]:
+                    keys.add(k)
+                    st.append({"ver": nme, "tags": []})
+            for t in LIST_TAGS:
+                if st and rng.random() < 0.65:
+                    rng.choice(st)["tags"].append(t)
+            stacks.append(st)
+        names = [nme for nme, _ in base]
+        r = rng.random()
+        terms, pure = [], True
+        if r < 0.6:
+            arg, terms, pure = L.random_expr(rng, names, odd)
+            kind = "expr"
+            if arg == "":
+                kind = "none"
+            elif not any(op in arg for op in ("<", ">", "==")):
+                kind = "glob"          # no operator: the argument is a (literal) shell pattern
+                if any(ch in arg for ch in "[]"):
+                    continue
+        elif r < 0.75:
+            declared = [d["ver"] for st in stacks for d in st]
+            v = rng.choice(declared) if (declared and rng.random() < 0.8) else rng.choice(names)
+            arg = rng.choice([v, v, v, v[:max(1, len(v) // 2)] + "*", "*", "?" + v[1:], "*" + v[-1:], v + "?", v[:1] + "*" + v[-1:]])
+            kind = "glob"
+        elif r < 0.92:
+            arg, kind = "", "none"
+        else:
+            arg, kind = rng.choice(["= " + rng.choice(names), " =  " + rng.choice(names)]), "bad"
+        tags = rng.choice([[], [], ["current"], ["current"], ["latest"], ["beta"], ["current", "latest"], ["beta", "current"],
+                           ["latest", "current"], ["latest", "beta", "current"]])
+        cases.append({"kind": "list", "stacks": stacks, "version": arg, "argkind": kind, "tags": tags,
+                      "terms": [list(t) for t in terms], "pure": pure})
+    return cases
+
+
 def spelling_key(d):
     """Two descriptions with the same key are equal in any order that reads numbers numerically."""
     def part(x):
@@ -654,9 +1326,9 @@ def gen_stacks(ctx, pool, n):
 # ---- generators -------------------------------------------------------------------------------------------
 
 SIZES = {   # name sets and case counts per tier; "search" is the budget of the hunt for a failing input after a correspondence break
-    "quick":    dict(g1404=300,  wide=330,  arb_sets=45,  match=2500,  latest=600,  stacks=150),
-    "search":   dict(g1404=1404, wide=700,  arb_sets=150, match=10000, latest=2000, stacks=450),
-    "thorough": dict(g1404=1404, wide=1600, arb_sets=600, match=40000, latest=8000, stacks=2500),
+    "quick":    dict(g1404=300,  wide=330,  arb_sets=45,  match=2500,  latest=600,  stacks=130,  legal=600,  enum=1500, lists=110, families=3, repos=80),
+    "search":   dict(g1404=1404, wide=700,  arb_sets=150, match=10000, latest=2000, stacks=450,  legal=2000, enum=8000, lists=400, families=12, repos=300),
+    "thorough": dict(g1404=1404, wide=1600, arb_sets=600, match=40000, latest=8000, stacks=1500, legal=8000, enum=None, lists=1000, families=None, repos=1500),
 }
 
 
@@ -705,6 +1377,57 @@ def gen_small(ctx, pool, n_match, n_latest):
     return cases
 
 
+ENUM_TOKENS = [">=", "<", "==", "1.2", "1.10", "||", "or", "&&", "and", "(", "="]
+
+
+def gen_enum_exprs(ctx, n):
+    """Every sequence of 1-4 tokens of ENUM_TOKENS, joined by single blanks and joined by nothing, against the versions
+    1.2 / 1.9 / 1.10: all the malformed requests of that size (dangling and doubled operators, missing operators, unknown
+    tokens, words glued to versions).  n = how many of them (None: all, the thorough tier).  Correspondence only."""
+    import itertools
+    texts = []
+    for k in (1, 2, 3, 4):
+        for toks in itertools.product(ENUM_TOKENS, repeat=k):
+            texts.append(" ".join(toks))
+            if k > 1:
+                texts.append("".join(toks))
+    texts = list(dict.fromkeys(texts))
+    if n is not None and n < len(texts):
+        texts = ctx.rng.sample(texts, n)
+    return [{"kind": "match", "v": v, "expr": t, "terms": [], "pure": False, "enum": True}
+            for t in texts for v in (("1.2", "1.9", "1.10") if n is None else (ctx.rng.choice(["1.2", "1.9", "1.10"]),))]
+
+
+def gen_legal(ctx, pool, n):
+    """version arguments as `setup prod <arg>` / `setupRequired(prod <arg>)` receive them, with what they are by construction"""
+    rng = ctx.rng
+    names = [nme for nme, _ in pool] or ["1.0"]
+    ws = ["", " ", "  ", "\t"]
+    cases = []
+    for _ in range(n):
+        r = rng.random()
+        v = rng.choice(names)
+        if r < 0.45:
+            k = rng.choice([1, 1, 2, 3])
+            ops = [rng.choice(L.OPS + [None]) for _ in range(k)]
+            terms = [(rng.choice(ws) + o + rng.choice(ws) if o else "") + rng.choice(names) for o in ops]
+            text = rng.choice(ws) + rng.choice([" || ", "||", " or ", " && "]).join(terms) + rng.choice(ws)
+            cases.append({"kind": "legal", "expr": text, "shape": "chain/explicit" if any(ops) else "chain/bare",
+                          "want": "relational" if any(ops) else "plain"})
+        elif r < 0.6:
+            cases.append({"kind": "legal", "expr": v, "shape": "name", "want": "plain"})
+        elif r < 0.8:
+            text = rng.choice(ws) + "=" + rng.choice(ws[1:]) + v + rng.choice(["", " ", " || " + rng.choice(names)])
+            cases.append({"kind": "legal", "expr": text, "shape": "single-equals", "want": "bad"})
+        elif r < 0.9:
+            text = rng.choice(ws) + "=" + rng.choice(ws[1:]) + v + " || " + rng.choice(L.OPS) + " " + rng.choice(names)
+            cases.append({"kind": "legal", "expr": text, "shape": "single-equals-then-operator", "want": "relational"})
+        else:
+            text = rng.choice(["=" + v, "=", "= ", " =  ", "", " ", v + " = " + v, v + " =", "=\t" + v, "= =", "= = 1", "=" + v + " 2", "x= 1"])
+            cases.append({"kind": "legal", "expr": text, "shape": "odd", "want": None})
+    return cases
+
+
 # ---- entry points ------------------------------------------------------------------------------------------
 
 def corpus_cases():
@@ -727,39 +1450,179 @@ def run_case(ctx, c):
         eval_small(ctx, [c])
 
 
-def run(ctx, sz=None):
-    sz = sz or SIZES["thorough" if (ctx.tier == "thorough" or ctx.escalated) else "quick"]
-    cc = corpus_cases()
-    ctx.hist("corpus", len(cc))
-    for c in cc:
-        run_case(ctx, c)
+def arbitrary_set(ctx):
+    names = list(dict.fromkeys(L.random_arbitrary(ctx.rng) for _ in range(32)))
+    # a few conventional names among them: mixed comparisons
+    names += [L.render(L.random_conventional(ctx.rng)) for _ in range(4)]
+    eval_names(ctx, list(dict.fromkeys(names)), tag="arbitrary")
+
+
+def boundary_sets(ctx, pool):
+    """The boundary of the conventional class (docs/notes/g10.md, C10_boundary_witness): a component `letters* 9+ letter …`
+    is compared as a string with everything and no digit string sorts above it, so the order stays transitive when such
+    components are added; any other digit run before a letter closes a cycle.  Not a clause of the property: counted only."""
+    import re as _re
+    rng = ctx.rng
+    base = [nme for nme, _ in rng.sample(pool, min(len(pool), 70))]
+    nines, others = [], []
+    for nme in base[:50]:
+        parts = _re.split(r"([._])", nme.split("-")[0].split("+")[0])
+        i = rng.randrange(0, len(parts), 2)
+        lead = _re.match(r"[A-Za-z]*", parts[i]).group(0)
+        tail = rng.choice("abz") + rng.choice(["", "1", "9", "x2"])
+        nines.append("".join(parts[:i] + [lead + "9" * rng.choice([1, 1, 2]) + tail] + parts[i + 1:]))
+        others.append("".join(parts[:i] + [lead + rng.choice(["0", "1", "8", "19", "90"]) + tail] + parts[i + 1:]))
+    for tag, extra in (("boundary-nines", nines), ("boundary-other-digits", others)):
+        names = list(dict.fromkeys(base + extra))
+        isrt, _ = eval_names(ctx, names, tag=tag)
+        ok = [i for i in range(len(names)) if isrt[i][i] == "="]
+        ctx.hist("%s/intransitive-triples(first 50)" % tag, len(L.intransitive_triples(isrt, ok, limit=50)))
+    if ctx.histogram.get("boundary-nines/intransitive-triples(first 50)"):
+        ctx.note("the order is not transitive on conventional names + all-nines components: the characterisation in docs/notes/g10.md is wrong")
+
+
+LIST_FLOORS = (("list/tagged-version-fails-expression", 3), ("list/tagged-version-satisfies-expression", 3),
+               ("list/latest-of-a-stack-fails-expression", 1), ("list/tags=none", 3), ("list/tags=latest", 1),
+               ("list/arg=glob", 3), ("list/arg=none", 3), ("list/arg=bad", 1), ("find/decided-by=current", 2),
+               ("find/decided-by=latest", 2), ("entry/expr/versionExpr", 3), ("entry/glob/explicit", 1))
+FLOORS = ("stack/branch=cache", "stack/branch=db", "stack/ties-inside-a-stack", "stack/string-order-differs-from-numeric-order",
+          "stack/minver:some", "stack/minver:none", "stack/oracle:latest_of_matches", "stack/oracle:match_iff_relation",
+          "arbitrary/strict:U", "arbitrary/sort:<", "arbitrary/sort:M", "match/outcome=match", "match/outcome=nomatch",
+          "legal/outcome=relational", "legal/outcome=plain", "legal/outcome=bad",
+          "match/text:word-or", "match/text:and", "match/text:no-blank-after-operator", "match/text:no-blank-around-||",
+          "match/text:bare-term", "match/text:tab-or-double-blank", "match/text:and-after-or", "match/text:or-after-and",
+          "match/oracle:match_iff_relation", "match/enumerated-token-sequence", "list/enumerated-family", "list/cli=lines",
+          "list/cli=err:ProductNotFound", "list/listCache-line-of-4", "boundary-nines/sort:<", "wide/sort:=", "g1404/sort:<")
+
+
+def run_sizes(ctx, sz):
+    """One pass over every class of case with the budgets `sz`, then the distribution floors.  Returns the pool of
+    conventional names.  The classes that need real stacks (the slowest, and the ones whose input classes were added
+    last) come before the large name matrices, so that a loaded machine starves the matrices and not them."""
     pool = []
+    for tag, names, descs in conv_sets(ctx, dict(sz, g1404=min(sz["g1404"], 120), wide=min(sz["wide"], 120))):
+        if ctx.out_of_time():
+            break
+        eval_names(ctx, names, descs, tag=tag)        # a first, small slice: it also provides the pool for the other classes
+        pool += list(zip(names, descs))
+    if pool and not ctx.out_of_time():
+        eval_chunks(ctx, gen_lists(ctx, pool, sz["lists"]), 60)
+        if not ctx.out_of_time():
+            eval_list_families(ctx, enum_list_families(ctx, sz["families"]))
+        if not ctx.out_of_time():
+            for k, floor in LIST_FLOORS:
+                if ctx.histogram.get(k, 0) < floor:
+                    raise common.InfraError("degenerate distribution: %d listing cases under %r (floor %d)" % (ctx.histogram.get(k, 0), k, floor))
+    if pool and not ctx.out_of_time():
+        eval_chunks(ctx, gen_stacks(ctx, pool, sz["stacks"]), 80)
+    if pool and not ctx.out_of_time():
+        eval_chunks(ctx, gen_repos(ctx, pool, sz["repos"]), 80)
+        if not ctx.out_of_time():
+            for k, floor in (("repos/a-later-repository-has-the-latest", 5), ("repos/first-repository-has-the-latest", 5)):
+                if ctx.histogram.get(k, 0) < floor:
+                    raise common.InfraError("degenerate distribution: %d repository cases under %r (floor %d)" % (ctx.histogram.get(k, 0), k, floor))
+    if pool and not ctx.out_of_time():
+        eval_chunks(ctx, gen_small(ctx, pool, sz["match"], sz["latest"]) + gen_legal(ctx, pool, sz["legal"])
+                    + gen_enum_exprs(ctx, sz["enum"]), 6000)
+    # arbitrary strings over the well-formed alphabet, in sets (all ordered pairs of each set)
+    for _ in range(sz["arb_sets"]):
+        if ctx.out_of_time():
+            break
+        arbitrary_set(ctx)
+    if pool and not ctx.out_of_time():
+        boundary_sets(ctx, pool)
     for tag, names, descs in conv_sets(ctx, sz):
         if ctx.out_of_time():
             break
         eval_names(ctx, names, descs, tag=tag)
         pool += list(zip(names, descs))
-    # arbitrary strings over the well-formed alphabet, in sets (all ordered pairs of each set)
-    for _ in range(sz["arb_sets"]):
-        if ctx.out_of_time():
-            break
-        names = list(dict.fromkeys(L.random_arbitrary(ctx.rng) for _ in range(32)))
-        # a few conventional names among them: mixed comparisons
-        names += [L.render(L.random_conventional(ctx.rng)) for _ in range(4)]
-        eval_names(ctx, list(dict.fromkeys(names)), tag="arbitrary")
-    if pool and not ctx.out_of_time():
-        eval_small(ctx, gen_small(ctx, pool, sz["match"], sz["latest"]))
-    if pool and not ctx.out_of_time():
-        eval_small(ctx, gen_stacks(ctx, pool, sz["stacks"]))
     h = ctx.histogram
     if not ctx.out_of_time():
-        for k in ("stack/branch=cache", "stack/branch=db", "stack/string-order-differs-from-numeric-order", "stack/minver:some",
-                  "stack/minver:none", "stack/oracle:latest_of_matches", "stack/oracle:match_iff_relation", "arbitrary/strict:U", "arbitrary/sort:<", "arbitrary/sort:M", "match/outcome=match", "match/outcome=nomatch",
-                  "match/oracle:match_iff_relation", "wide/sort:=", "g1404/sort:<"):
+        for k in FLOORS:
             if not h.get(k):
                 raise common.InfraError("degenerate distribution: nothing counted under %r" % k)
         if h.get("match/outcome=match", 0) < 0.1 * h.get("match/terms=1", 1):
             raise common.InfraError("degenerate distribution: hardly any expression matches")
+    return pool
+
+
+def run_enlarged(ctx, sz, pool):
+    """The thorough tier's budget (also used inside the quick tier's time limit when a mirrored function changed, and by
+    the search after a correspondence break): every class gets a piece in turn, so that none is starved when time runs out."""
+    def lists():
+        cases = gen_lists(ctx, pool, sz["lists"])
+        fams = enum_list_families(ctx, sz["families"])
+        ctx.rng.shuffle(fams)
+        for i in range(0, max(len(cases), 1), 60):
+            eval_small(ctx, cases[i:i + 60])
+            k = i // 60
+            eval_list_families(ctx, fams[k * 4:(k + 1) * 4])
+            yield
+        rest = fams[(max(len(cases), 1) + 59) // 60 * 4:]
+        for i in range(0, len(rest), 8):
+            eval_list_families(ctx, rest[i:i + 8])
+            yield
+
+    def stacks():
+        cases = gen_stacks(ctx, pool, sz["stacks"])
+        for i in range(0, len(cases), 80):
+            eval_small(ctx, cases[i:i + 80])
+            yield
+
+    def repos():
+        cases = gen_repos(ctx, pool, sz["repos"])
+        for i in range(0, len(cases), 100):
+            eval_small(ctx, cases[i:i + 100])
+            yield
+
+    def small():
+        cases = gen_small(ctx, pool, sz["match"], sz["latest"]) + gen_legal(ctx, pool, sz["legal"]) + gen_enum_exprs(ctx, sz["enum"])
+        ctx.rng.shuffle(cases)
+        for i in range(0, len(cases), 6000):
+            eval_small(ctx, cases[i:i + 6000])
+            yield
+
+    def arbitrary():
+        for k in range(sz["arb_sets"]):
+            arbitrary_set(ctx)
+            if k % 25 == 24:
+                yield
+
+    def matrices():
+        for tag, names, descs in conv_sets(ctx, dict(sz, g1404=0)):      # the wide grammar first …
+            if tag != "g1404":
+                eval_names(ctx, names, descs, tag=tag)
+                yield
+        for tag, names, descs in conv_sets(ctx, dict(sz, wide=0)):       # … the whole 1,404 grammar (all pairs, every triple) last
+            if tag == "g1404":
+                eval_names(ctx, names, descs, tag=tag)
+                yield
+
+    its = [lists(), stacks(), repos(), small(), arbitrary(), matrices()]
+    while its and not ctx.out_of_time():
+        for it in list(its):
+            if ctx.out_of_time():
+                break
+            try:
+                next(it)
+            except StopIteration:
+                its.remove(it)
+    if its:
+        ctx.note("time limit reached in the enlarged budget: %d of 6 case classes not exhausted" % len(its))
+
+
+def run(ctx, sz=None):
+    """Corpus; then the ORDINARY quick portion, completely and with its floors; only then — thorough tier, or quick tier with
+    a stale fingerprint (ctx.escalated: somebody edited mirrored code, which is exactly when the new input classes
+    matter), or the search after a correspondence break (sz given) — the enlarged budget, class by class in turn."""
+    cc = corpus_cases()
+    ctx.hist("corpus", len(cc))
+    for c in cc:
+        run_case(ctx, c)
+    pool = run_sizes(ctx, SIZES["quick"])
+    big = sz or (SIZES["thorough"] if (ctx.tier == "thorough" or ctx.escalated) else None)
+    if big is not None and pool and not ctx.out_of_time():
+        run_enlarged(ctx, big, pool)
     if ctx.evaluations and ctx.distinct_nontrivial < ctx.evaluations * 0.3:
         raise common.InfraError("degenerate distribution: %d non-trivial of %d" % (ctx.distinct_nontrivial, ctx.evaluations))
 
@@ -773,6 +1636,10 @@ def names_of(inp):
         return list(inp["names"])
     if inp.get("kind") == "stack":
         return [v for st in inp["stacks"] for v in st] + [t[1] for t in inp["terms"]]
+    if inp.get("kind") == "repos":
+        return [v for st in inp["repos"] for v in st]
+    if inp.get("kind") == "list":
+        return [d["ver"] for st in inp["stacks"] for d in st] + [t[1] for t in inp["terms"]]
     return []
 
 
@@ -813,7 +1680,13 @@ def search(ctx):
                     variants.append(dict(inp, expr="%s %s" % (t[0], t[1]), terms=[t], pure=True))
             eval_small(ctx, variants)
     if not ctx.failures and not ctx.out_of_time():
-        run(ctx, SIZES["search"])
+        sz = dict(SIZES["search"])
+        kinds = {dg["input"].get("kind") for dg in ctx.disagreements}
+        if "names" not in kinds:        # the comparator itself agrees: spend the budget on expressions and stacks
+            sz.update(g1404=SIZES["quick"]["g1404"], wide=SIZES["quick"]["wide"], arb_sets=SIZES["quick"]["arb_sets"])
+        elif ctx.time_left() < 120:     # a loaded machine: the whole 1,404 grammar alone would take what is left
+            sz.update(g1404=500)
+        run(ctx, sz)
 
 
 def replay(ctx, rp):
@@ -835,6 +1708,10 @@ def replay(ctx, rp):
     dis = sub_ctx.disagreements
     io_ = (dis[0]["impl_output"] if dis else (sub_ctx.failures[0]["impl_output"] if sub_ctx.failures else None))
     mo = (dis[0]["model_output"] if dis else (sub_ctx.failures[0]["model_output"] if sub_ctx.failures else None))
+    if io_ is None and c["kind"] == "repos":
+        io_ = mo = impl_small_forked([c], 1)[0]["latest"]
+    if io_ is None and c["kind"] == "list":
+        io_ = mo = impl_small_forked([c], 1)[0]["products"]
     if io_ is None:
         out = impl_small_forked([c], 1)[0]
         io_ = mo = out.get("r", {k: out[k] for k in ("idx", "err", "cache", "db") if k in out}) if "r" in out or "idx" in out or "err" in out else \
